@@ -246,7 +246,8 @@ func ShapeSig(kb *ast.KnowledgeBase) string {
 		t := ev.Elem().Type()
 		for i := 0; i < t.NumField(); i++ {
 			f := t.Field(i)
-			if !f.IsExported() || skipFields[f.Name] || f.Name == "AstID" || f.Name == "RuleName" {
+			// the entry's own text and description do not influence any run (the JSON translator spells them differently)
+			if !f.IsExported() || skipFields[f.Name] || f.Name == "AstID" || f.Name == "RuleName" || f.Name == "GrlText" || f.Name == "RuleDescription" {
 				continue
 			}
 			b.WriteString(f.Name)
